@@ -1454,6 +1454,37 @@ func (c *Client) readRcptStatus() error {
 
 type clientDebugWriter struct {"""))
 
+# ---- local renames: the whole function is the edit (old text read from /repo, new text = old with the identifier renamed)
+def rename_in_func(name, file, header, pairs):
+    src = open(os.path.join('/repo', file)).read()
+    i = src.index(header)
+    j = src.index("\n}\n", i) + 3
+    old = src[i:j]
+    new = old
+    for a, b in pairs:
+        new = re.sub(r'\b' + re.escape(a) + r'\b', b, new)
+    assert new != old, name
+    variant(name, (file, old, new))
+
+rename_in_func("rename-close-counter", "client.go", "func (d *dataCloser) Close() error {", [("expectedResponses", "remaining")])
+rename_in_func("rename-mail-parser-local", "conn.go", "func (c *Conn) handleMail(arg string) {", [("p", "ps"), ("value", "val"), ("key", "k")])
+rename_in_func("rename-rcpt-parser-local", "conn.go", "func (c *Conn) handleRcpt(arg string) {", [("p", "ps"), ("value", "v"), ("recipient", "rcpt")])
+rename_in_func("rename-writeresponse-params", "conn.go", "func (c *Conn) writeResponse(code int, enhCode EnhancedCode, text ...string) {", [("enhCode", "ec"), ("lastLineIndex", "last")])
+rename_in_func("rename-mailbox-builder", "parse.go", "func (p *parser) parseMailbox() (string, error) {", [("sb", "b")])
+rename_in_func("rename-datareader-locals", "data.go", "func (r *dataReader) Read(b []byte) (n int, err error) {", [("c", "ch")])
+rename_in_func("rename-limiter-locals", "lengthlimit_reader.go", "func (r *lineLimitReader) Read(b []byte) (int, error) {", [("chr", "octet")])
+rename_in_func("rename-bdat-locals", "conn.go", "func (c *Conn) handleBdat(arg string) {", [("size", "chunkSize"), ("last", "isLast"), ("chunk", "lr")])
+rename_in_func("rename-auth-locals", "conn.go", "func (c *Conn) handleAuth(arg string) {", [("encoded", "line"), ("challenge", "chal"), ("ir", "initial"), ("response", "resp")])
+rename_in_func("rename-client-rcpt-locals", "client.go", "func (c *Client) Rcpt(to string, opts *RcptOptions) error {", [("sb", "b"), ("to", "addr")])
+rename_in_func("rename-client-mail-locals", "client.go", "func (c *Client) Mail(from string, opts *MailOptions) error {", [("sb", "b"), ("from", "sender")])
+
+variant("bdat-limit-remaining-budget",
+  ("conn.go", "	if c.server.MaxMessageBytes != 0 && c.bytesReceived+int64(size) > c.server.MaxMessageBytes {",
+   "	if limit := c.server.MaxMessageBytes; limit != 0 && int64(size) > limit-c.bytesReceived {"))
+variant("bdat-limit-operands-swapped",
+  ("conn.go", "	if c.server.MaxMessageBytes != 0 && c.bytesReceived+int64(size) > c.server.MaxMessageBytes {",
+   "	if c.server.MaxMessageBytes != 0 && c.server.MaxMessageBytes < int64(size)+c.bytesReceived {"))
+
 if sys.argv[1:] == ['--export']:
     out = [{"id": "benign-" + n, "edits": [{"file": f, "old": o, "new": w} for f, o, w in V[n]]} for n in V]
     json.dump(out, open('/verif/liveness/benign.json', 'w'), indent=1)
